@@ -137,7 +137,41 @@ def sampleBatchedLp (lm : LM) (V : Nat) (eos : Option Nat) (N maxIters : Nat)
     (draws : List (List (List Nat))) : List (Option Rat) :=
   draws.flatMap (fun d => (walk lm V eos N maxIters d).lp)
 
-/-! ## The concrete configuration: values are lists of token rows -/
+/-! ## The concrete configuration: values are shaped tensors of token rows -/
+
+/-- A tensor as the wrapper sees it: its shape and its cells in row-major order. For a value
+(`sample()`'s result, `log_prob`'s argument) a cell is one token row, i.e. the event dimension
+stays inside the cell and the last entry of `shape` is its size; for scores a cell is one number.
+Two values with the same rows but different shapes (`(4, S)` / `(2, 2, S)`) are different values:
+the cache's hit test is `_samples_cache.shape == value.shape and (_samples_cache == value).all()`,
+and the answer `log_probs.view(value.shape[:-1])` differs in shape. -/
+structure Shaped (α : Type) where
+  shape : List Nat
+  cells : List α
+  deriving DecidableEq, Repr
+
+def shapeProd (shape : List Nat) : Nat := shape.foldl (· * ·) 1
+
+/-- `self.batch_shape` -/
+def batchShape (N : Option Nat) : List Nat :=
+  match N with
+  | none => []
+  | some n => [n]
+
+/-- The shape test of `_validate_sample` on the values this model covers: a value has the shape
+`sample_shape + batch_shape + (S,)`. (The code only asks that `batch_shape + (S,)` *broadcasts*
+with `value.shape`; a value whose batch dimension is 1 or missing while `batch_shape = (N,)`,
+`N > 1`, passes the code's test and is then scored against batch element 0 only, or - when
+`numel // (N * S) == 0` - answered with uninitialised memory. Such values are outside the property
+(no walk of the distribution produces them), are not generated, and the model rejects them.) -/
+def batchDimOk (N : Option Nat) (shape : List Nat) : Bool :=
+  match N with
+  | none => decide (1 ≤ shape.length)
+  | some n => decide (2 ≤ shape.length) && shape.dropLast.getLast? == some n
+
+/-- `num_samples = value.numel() // (batch_size * value.size(-1))` -/
+def numSamples (N : Option Nat) (shape : List Nat) : Nat :=
+  shapeProd shape / (N.getD 1 * shape.getLastD 1)
 
 /-- The batch element that scores row `i` of a value: `i % N` with a batch shape `(N,)` (rows
 are stacked sample-major), `i` itself without one (`log_prob` hands all rows to the language
@@ -147,31 +181,163 @@ def elemOf (N : Option Nat) (i : Nat) : Nat :=
   | none => i
   | some n => i % n
 
-/-- `log_prob` of a value given as its list of rows (row `i` = flattened sample/batch index `i`). -/
+/-- `log_prob` of the rows of a value (row `i` = flattened sample/batch index `i`), before the
+final `.view(shape)`. -/
 def scoreRows (lm : LM) (V : Nat) (eos : Option Nat) (N : Option Nat) (rows : List (List Nat)) :
     List (Option Rat) :=
   rows.zipIdx.map (fun rn => some (distLogProb lm V eos (elemOf N rn.2) (rn.1.map Int.ofNat)))
 
-/-- The distribution of the model as a `DistCfg`: validation is the repaired
-`_validate_sample` on every row, a value without rows is the empty sample; `raises` says on which
-values the language model raises (none for the model's own total `LM`). -/
+/-- The distribution of the model as a `DistCfg` over shaped tensors: validation is the shape
+test and the repaired `_validate_sample` on every row; `num_samples == 0` is the empty sample,
+answered with `torch.empty(value.shape[:-1])` (no cells); every other value gets
+`log_probs.view(value.shape[:-1])`; `raises` says on which rows the language model raises (none
+for the model's own total `LM`). -/
 def distCfg (lm : LM) (V : Nat) (eos : Option Nat) (maxIters : Option Nat) (N : Option Nat)
     (cache : Bool) (validateArgs : Option Bool)
     (raises : List (List Nat) → Bool := fun _ => false) :
-    DistCfg (List (List Nat)) (List (Option Rat)) where
+    DistCfg (Shaped (List Nat)) (Shaped (Option Rat)) where
   cacheSamples := cache
   validateArgs := validateArgs
-  valid := fun v => v.all (fun r =>
+  valid := fun v => batchDimOk N v.shape && v.cells.all (fun r =>
     validateSample false V (eos.map Int.ofNat) maxIters (r.map Int.ofNat))
-  isEmpty := fun v => v.isEmpty
-  emptyScores := fun _ => []
-  score := scoreRows lm V eos N
-  raises := raises
+  isEmpty := fun v => decide (numSamples N v.shape = 0)
+  emptyScores := fun v => ⟨v.shape.dropLast, []⟩
+  score := fun v => ⟨v.shape.dropLast, scoreRows lm V eos N v.cells⟩
+  raises := fun v => raises v.cells
+
+/-- `samples.size(-1)`: the common width of the stacked (padded) walks. -/
+def rowsWidth (rows : List (List Nat)) : Nat := (rows.head?.map List.length).getD 0
+
+/-- What `sample(sample_shape)` returns when something is drawn: `samples.reshape(shape)` with
+`shape = sample_shape + batch_shape + (samples.size(-1),)`. -/
+def sampleValue (sampleShape : List Nat) (N : Option Nat) (rows : List (List Nat)) :
+    Shaped (List Nat) :=
+  ⟨sampleShape ++ batchShape N ++ [rowsWidth rows], rows⟩
+
+/-- What `sample` caches next to it: `log_probs.view(shape[:-1])`. -/
+def sampleScores (sampleShape : List Nat) (N : Option Nat) (rows : List (List Nat))
+    (walkLp : List (Option Rat)) : Shaped (Option Rat) :=
+  ⟨(sampleValue sampleShape N rows).shape.dropLast, walkLp⟩
+
+/-- `sample(sample_shape)` when the sample shape holds a 0: `torch.empty(sample_shape +
+batch_shape + event_shape)`, `event_shape = (max_iters,)` or `(1,)`. -/
+def emptySample (sampleShape : List Nat) (N : Option Nat) (maxIters : Option Nat) :
+    Shaped (List Nat) :=
+  ⟨sampleShape ++ batchShape N ++ [maxIters.getD 1], []⟩
 
 /-- A language model that looks its history up in an embedding table raises (`IndexError`) on a
 value one of whose rows holds an out-of-vocabulary token in `hist[:-1]`, i.e. anywhere but in the
 last position — also after the first `eos`, where `_validate_sample` does not look. -/
 def oovInHistory (V : Nat) (value : List (List Nat)) : Bool :=
   value.any (fun r => r.dropLast.any (fun x => decide (V ≤ x)))
+
+/-! ## The tensors belong to the caller: in-place edits between the calls
+
+`sample()` returns the very tensor it caches, `log_prob(value)` caches `value` itself and returns
+the very tensor it caches as scores (code as pinned): the cache *aliases* tensors the caller
+holds. A caller that edits one of them in place (`sample[0, 0] = 3`, `scores.neg_()`) edits the
+cache: the hit test compares the edited tensor with itself, and the next `log_prob` answers with
+the scores of the content *before* the edit (or with the edited scores). The repaired code caches
+clones and returns a clone on a hit, so the cache is a value store (`runCalls`).
+
+The caller's tensors are named by numbers; the script says what the caller does with them. -/
+
+inductive CallOp (Value Scores : Type) where
+  /-- `t_r = dist.sample(...)` -/
+  | sample (r : Nat) (empty : Bool) (drawn : Value) (walkScores : Scores)
+  /-- `t_r = <a new tensor holding v>` when `r` is unused, else the in-place `t_r.copy_(v)` -/
+  | setValue (r : Nat) (v : Value)
+  /-- `dist.log_prob(t_r)` (ignored when the caller has no tensor `r`) -/
+  | logProb (r : Nat)
+  /-- in-place edit of the tensor the `k`-th `log_prob` call (from 0) returned -/
+  | editScores (k : Nat) (f : Scores → Scores)
+  | clearCache
+
+/-- The state of the aliasing object and of the caller's tensors. -/
+structure AliasState (Value Scores : Type) where
+  /-- the caller's value tensors (latest binding first) -/
+  heap : List (Nat × Value)
+  /-- `_samples_cache`: *which* of the caller's tensors it is -/
+  samples : Option Nat
+  /-- `_log_probs_cache`: identity of the tensor object and its current content -/
+  logProbs : Option (Nat × Scores)
+  /-- next unused object identity -/
+  nextId : Nat
+  /-- per `log_prob` call so far (oldest first): identity of the tensor it returned, `none`
+  when it raised or returned a tensor nobody else holds -/
+  answered : List (Option Nat)
+
+def AliasState.init {Value Scores : Type} : AliasState Value Scores := ⟨[], none, none, 0, []⟩
+
+/-- `log_prob(t_r)` on the aliasing object (write order: both caches after the scores exist). -/
+def aliasLogProb {Value Scores : Type} [DecidableEq Value] (cfg : DistCfg Value Scores)
+    (st : AliasState Value Scores) (value : Value) (r : Nat) :
+    Except DistErr Scores × AliasState Value Scores :=
+  if validating cfg.validateArgs && !cfg.valid value then
+    (.error .valueError, { st with answered := st.answered ++ [none] })
+  else if cfg.isEmpty value then
+    (.ok (cfg.emptyScores value), { st with answered := st.answered ++ [none] })
+  else if cfg.cacheSamples &&
+      decide ((st.samples.bind fun c => st.heap.lookup c) = some value) then
+    match st.logProbs with
+    | some (i, l) => (.ok l, { st with answered := st.answered ++ [some i] })
+    | none => (.error .assertion, { st with answered := st.answered ++ [none] })
+  else if cfg.raises value then
+    (.error .scoring, { st with answered := st.answered ++ [none] })
+  else
+    let l := cfg.score value
+    if cfg.cacheSamples then
+      (.ok l, { st with samples := some r, logProbs := some (st.nextId, l),
+                        nextId := st.nextId + 1, answered := st.answered ++ [some st.nextId] })
+    else (.ok l, { st with answered := st.answered ++ [none] })
+
+/-- Run a script on the aliasing object; the outputs of the `log_prob` calls (content at the
+moment the call returns). -/
+def runAliased {Value Scores : Type} [DecidableEq Value] (cfg : DistCfg Value Scores) :
+    AliasState Value Scores → List (CallOp Value Scores) → List (Except DistErr Scores)
+  | _, [] => []
+  | st, .sample r e d w :: ops =>
+    let st1 := { st with heap := (r, d) :: st.heap }
+    if e || !cfg.cacheSamples then runAliased cfg st1 ops
+    else runAliased cfg { st1 with samples := some r, logProbs := some (st.nextId, w),
+                                   nextId := st.nextId + 1 } ops
+  | st, .setValue r v :: ops => runAliased cfg { st with heap := (r, v) :: st.heap } ops
+  | st, .logProb r :: ops =>
+    match st.heap.lookup r with
+    | none => runAliased cfg st ops
+    | some v =>
+      let res := aliasLogProb cfg st v r
+      res.1 :: runAliased cfg res.2 ops
+  | st, .editScores k f :: ops =>
+    match st.answered.getD k none, st.logProbs with
+    | some i, some (j, l) =>
+      if i = j then runAliased cfg { st with logProbs := some (j, f l) } ops
+      else runAliased cfg st ops
+    | _, _ => runAliased cfg st ops
+  | st, .clearCache :: ops => runAliased cfg { st with samples := none, logProbs := none } ops
+
+/-- The script as the object that caches *copies* sees it: every `log_prob` gets the content its
+argument has at the time of the call; edits of the caller's tensors are the caller's business. -/
+def resolveCalls {Value Scores : Type} :
+    List (Nat × Value) → List (CallOp Value Scores) → List (DistOp Value Scores)
+  | _, [] => []
+  | heap, .sample r e d w :: ops => .sample e d w :: resolveCalls ((r, d) :: heap) ops
+  | heap, .setValue r v :: ops => resolveCalls ((r, v) :: heap) ops
+  | heap, .logProb r :: ops =>
+    match heap.lookup r with
+    | none => resolveCalls heap ops
+    | some v => .logProb v :: resolveCalls heap ops
+  | heap, .editScores _ _ :: ops => resolveCalls heap ops
+  | heap, .clearCache :: ops => .clearCache :: resolveCalls heap ops
+
+/-- The repaired object (caches clones, returns a clone on a hit) on a script. -/
+def runCalls {Value Scores : Type} [DecidableEq Value] (cfg : DistCfg Value Scores)
+    (ops : List (CallOp Value Scores)) : List (Except DistErr Scores) :=
+  runDist false cfg DistCache.empty (resolveCalls [] ops)
+
+/-- What a distribution that never caches answers to the `log_prob` calls of a script. -/
+def refCalls {Value Scores : Type} (cfg : DistCfg Value Scores)
+    (ops : List (CallOp Value Scores)) : List (Except DistErr Scores) :=
+  (logProbArgs (resolveCalls [] ops)).map (refLogProb cfg)
 
 end PdtVerif.SeqScore
